@@ -1,17 +1,17 @@
-\* exhaustive: one provider on two chains, one delegator, one validator, <= 5 operations
+\* exhaustive (code with fixes F6, F6b, F6c = /repo HEAD): one provider on two chains, one delegator, one validator, <= 7 operations, two delegators
 CONSTANTS
   Provs = {"p1"}
   Chains = {"c1", "c2"}
-  Dels = {"d1"}
+  Dels = {"d1", "d2"}
   Vals = {"va"}
   StakeAmts = {600, 1500}
   DelAmts = {1000}
   MinSelf = 100
   MinSpec = 1000
-  Fixed = FALSE
-  MaxOps = 6
+  Fixed = TRUE
+  MaxOps = 7
   GenHist = FALSE
 INIT Init
 NEXT Next
-INVARIANTS TypeOK MetaChains TotalDelegations Mirror
+INVARIANTS TypeOK MetaChains SelfStake TotalDelegations Mirror DelegateTotals FrozenBelowMin
 CHECK_DEADLOCK FALSE
